@@ -297,6 +297,8 @@ var c17Progs = []string{
 	"(defun assistfn (num) (+ num 1)) (defun mainfn (x1) (assistfn x1)) (debug-print (mainfn A))",
 	"(defun assistfn (num) (+ num 1)) (let ((x1 B) (x2 A)) (debug-print (assistfn x1) x2))",
 	"(set 'x1 A) (defun assistfn (num) (+ num x1)) (debug-print (assistfn B))",
+	"(defun squarefn (val) (* val val)) (defun dist2 (x1 x2) (+ (squarefn x1) (squarefn x2))) (debug-print (dist2 A B))",
+	"(set 'x2 32) (set 'x1 1) (defun sumfn (val) (+ val x1 x2)) (defun mulfn (val) (* val x2)) (debug-print (sumfn A) (mulfn B) x2)",
 }
 
 // multi-file sessions: the files of one session are minified together and loaded in order
